@@ -159,7 +159,7 @@ is ignored by the parser, `p:*` matches nothing.
 
 ### 11.6 Seeded property-breaking changes (detection matrix)
 
-Eight rounds of fresh sub-agents (2 x 17 changes, then 17, then 17, then 9 that
+Nine rounds of fresh sub-agents (2 x 17 changes, then 17, then 17, then 9 that
 were asked for changes which only manifest on LARGE instances: deep or wide
 documents, long histories, three goroutines, larger capacities; then 17 that
 were asked for TWO cooperating edits, each harmless alone; then rounds 6 and 7,
@@ -168,7 +168,8 @@ scanner, conversion helpers, clone methods, dispatch tables — and told which
 mechanisms earlier seeds had already used; round 8, 2 x 17, was told that a
 harness catches everything listed so far and asked for what such a harness is
 LEAST likely to exercise: unusual spellings, node kinds, thresholds, orders of
-calls, interactions of two features) were given
+calls, interactions of two features; round 9, 6 changes in session 4, had the
+plain brief again, limited to documents of at most ~50 nodes) were given
 only a property's text (rounds 2 and 3 also a one-line description of the
 earlier seeds, to force different mechanisms) and a scratch worktree of /repo,
 and asked for changes that break the property while compiling and passing the
@@ -268,6 +269,26 @@ attributable to its own history, and a second NodeNavigator implementation
 inside one history (C04); a namespace map shared by concurrent CompileWithNS
 calls (C05); 4*10^6 nesting levels in the quick tier (C06); case variants of
 function names and blanks inside qualified names (C17, already caught).
+Round 9 (6 changes for C06, C07, C08, C09, C13, C17; 5 caught at once — a
+re-panicking recover for runtime errors in build(), `<=` written as `!(a > b)`
+so that NaN compares true, unary minus as `0 - x` losing the sign of zero,
+translate() through a last-wins rune map, qualified names whose local part
+starts with a digit) had one miss: C13-M restores the context cursor in
+filterQuery.Select only when the predicate ACCEPTS the candidate. C02 (space
+P6) and C07 reported it, C13 did not, because its predicate atoms never put a
+candidate-rejecting filtered step LEFT of a context-reading operand inside an
+operator that does not save the cursor itself. C13 now has that family
+(`ctxMovers()`: 5 filtered steps x 4 context readers x `=`, `!=`,
+`count()+count() = 2` on 7 host steps) in the Compose and Identity spaces,
+and the identities are also placed as right operand of `=`, `!=` and `+` after
+such a step. A first form of the `+` variant compared `count(q) + count((P))`
+for absolute multi-step P and raised 600 signatures on the unchanged tree:
+`count(//following-sibling::comment())` counts a node once per step that
+reaches it, and which start node yields how many repeats differs — but no
+listed property fixes count() of a sequence that repeats nodes (C12 speaks of
+child/attribute/self paths and a single `//name`; C13's identities are about
+node SETS and truth values). That was a **false alarm of the new variant,
+caught before commit**: P now enters through `number(boolean((P)))`.
 Two side remarks of a round-8 sub-agent were **genuine defects of the pinned
 tree** that the strengthened C02/C07 checks then reproduced (a merged step left
 the cursor moved; a filtered descendant step skipped nested matches); both are
